@@ -55,13 +55,13 @@ class C03(diffcheck.DiffProp):
     ]
 
     def model_input(self, case, out):
-        if not out or len(out) < 7 or out[0] not in (1, 2, 3, 4, 5):
+        if not out or len(out) < 7 or out[0] not in (1, 2, 3, 4, 5, 6):
             return [case[1] if len(case) > 1 and case[1] in (0, 1) else 0, 0]
         n = out[6]
         return [out[1], n] + out[7:7 + 3 * n]
 
     def model_expected(self, case, out):
-        if not out or len(out) < 7 or out[0] not in (1, 2, 3, 4, 5):
+        if not out or len(out) < 7 or out[0] not in (1, 2, 3, 4, 5, 6):
             return [1, 0, 0]
         _, evs = parse(out)
         return [1, len(evs), sum(1 for e in evs if e[0] == 22)]
@@ -99,6 +99,15 @@ class C03(diffcheck.DiffProp):
                 return ("%s runtime driven by a host event loop (run / flush / sleep on the descriptor / poll(0)), wake "
                         "source %s: in %d of %d rounds the loop slept its whole %d ms watchdog although a task was "
                         "runnable / a wake had been issued: lost wake-up" % (d, src, r4, r2, 1500))
+        elif mode == 6:
+            if r2 != 1:
+                return ("%s runtime, ring capacity %d: a burst of %d receives that completed at once was not "
+                        "delivered within 6 s" % (d, r1 // 1000, r1 % 1000))
+            if r4 != 0:
+                return ("%s runtime, ring capacity %d: after a burst of %d simultaneous completions had filled the "
+                        "completion queue, a task woken from another thread while the runtime was blocked in the "
+                        "driver was not polled again until the wait timed out (%d ms): lost wake-up"
+                        % (d, r1 // 1000, r1 % 1000, r3))
         return None
 
     def known(self, case, out, what):
